@@ -932,7 +932,7 @@ package server
 //@     assert [C07,C04,C14:rename-writes-the-new-record-in-the-same-transaction] key == newKey && val == newValue && $arg0 == txn
 
 //@ unit (*DsManager).CreateDataset
-//@   prop C07 C04 C19 C14 C05
+//@   prop C07 C04 C19 C14 C05 C20
 //@   ghost idPersistedG bool = false
 //@   ghost freshG int = 0
 //@   requires dsm != nil && dsm.store != nil && !has($held, addrOf(dsm.lock)) && dsm.store.nextDatasetID < 4294967295
@@ -947,7 +947,7 @@ package server
 //@     assert [C14:next-dataset-id-written-under-the-key-open-reads] arrOf(key) == arrOf(StoreNextDatasetIDBytes) && len(key) == len(StoreNextDatasetIDBytes) && len(value) == 4
 //@     assert [C07,C04,C14:persisted-next-id-is-above-the-new-datasets-id] encBE32(value, 0) == freshG + 1 && ds.InternalID == freshG && dsm.store.nextDatasetID == freshG + 1
 //@   at call Marshal#1 before
-//@     assert [C19,C14:persisted-record-carries-the-requested-configuration] createDatasetConfig != nil ==> ds.ProxyConfig == createDatasetConfig.ProxyDatasetConfig && ds.VirtualDatasetConfig == createDatasetConfig.VirtualDatasetConfig && arrOf(ds.PublicNamespaces) == arrOf(createDatasetConfig.PublicNamespaces) && len(ds.PublicNamespaces) == len(createDatasetConfig.PublicNamespaces)
+//@     assert [C19,C14,C20:persisted-record-carries-the-requested-configuration] createDatasetConfig != nil ==> ds.ProxyConfig == createDatasetConfig.ProxyDatasetConfig && ds.VirtualDatasetConfig == createDatasetConfig.VirtualDatasetConfig && arrOf(ds.PublicNamespaces) == arrOf(createDatasetConfig.PublicNamespaces) && len(ds.PublicNamespaces) == len(createDatasetConfig.PublicNamespaces)
 //@     assert [C19,C14:record-serialised-from-the-new-dataset] cast(v, "*server.Dataset") == ds
 //@   at call storeValue#2 before
 //@     assert [C04,C07:next-id-persisted-before-the-dataset-record] idPersistedG && ds.InternalID == freshG
